@@ -10,12 +10,20 @@ stringify case  {id, kind:"str", v:<spec value tree>, ir:bool}
     path assignments in the script; the value actually built is re-read and compared with the tree
     -> out = value(str wire | undef) | throw | escape ;  rt = JSON.parse(text) outcome when out is a string
 The driver computes no expectation: it only builds operands and records what the engine did.
+
+Contexts: parsing and compiling the helper prelude (__cls, __protos) cost 4 ms per case, 20 times the JSON calls
+under test (216 of the quick tier's 670 CPU-s).  A context is therefore kept for C19_CTX_CASES consecutive cases
+(default 48; 1 = a fresh context for every case): the prelude is evaluated once, every case evaluates only its own
+short script; operands are always fresh (ctx.set).  A context is dropped as soon as anything left a script
+(exception that escaped, watchdog), so whatever follows starts clean.
 """
+import os
 from harness import wire
 from harness.drivers import CLASSIFY_JS
 
+_CTX_CASES = max(1, int(os.environ.get("C19_CTX_CASES", "48")))
+
 _PRELUDE = CLASSIFY_JS + (
-    "__out('start');"
     "var __OP = Object.getPrototypeOf({}), __AP = Object.getPrototypeOf([]);"
     "var __protos = function(x) {"
     "  if (x === null || typeof x !== 'object') return true;"
@@ -32,7 +40,7 @@ _PRELUDE = CLASSIFY_JS + (
     "};"
 )
 
-_PARSE_JS = _PRELUDE + (
+_PARSE_BODY = (
     "var __r, __ok = false;"
     "try { __r = JSON.parse(__t); __ok = true; } catch (e) { __out('p', 't', __cls(e)); }"
     "if (__ok) {"
@@ -41,7 +49,7 @@ _PARSE_JS = _PRELUDE + (
     "}"
 )
 
-_STR_TAIL = (
+_STR_BODY = (
     "__out('built', __v);"
     "var __s, __ok = false;"
     "try { __s = JSON.stringify(__v); __ok = true; } catch (e) { __out('p', 't', __cls(e)); }"
@@ -52,6 +60,12 @@ _STR_TAIL = (
     "  }"
     "}"
 )
+
+# the two procedures are part of the prelude (parsed and compiled once per context); a case's script is one call
+_PRELUDE += ("var __runParse = function() {" + _PARSE_BODY + "};"
+             "var __runStr = function() {" + _STR_BODY + "};")
+_PARSE_JS = "__out('start'); __runParse();"
+_STR_TAIL = "__runStr();"
 
 
 def to_wire_deep(v, depth=0, seen=frozenset()):
@@ -196,14 +210,41 @@ def _same_shape(a, b):
     return True
 
 
-def c19_driver(case, api):
-    ctx = api.new_context(time_limit=case.get("time_limit", 120.0))
-    got = {}
+def _context(case, api):
+    """the context of this child's current batch (helpers defined), or a new one"""
+    st = getattr(api, "_c19_state", None)
+    if st is None or st["left"] <= 0:
+        ctx = api.new_context(time_limit=case.get("time_limit", 120.0))
+        got = {}
 
-    def out_fn(name, *a):
-        got[name] = a
-        return None
-    ctx.set("__out", out_fn)
+        def out_fn(name, *a):
+            got[name] = a
+            return None
+        ctx.set("__out", out_fn)
+        ev = api.eval_outcome(ctx, _PRELUDE + "__out('prelude');", wall=240.0, cap=2_000_000)
+        if ev["o"] != "value" or "prelude" not in got:
+            raise RuntimeError("helper prelude did not run: %r" % (ev,))
+        st = {"ctx": ctx, "got": got, "left": _CTX_CASES}
+        api._c19_state = st
+    st["left"] -= 1
+    st["got"].clear()
+    return st
+
+
+def c19_driver(case, api):
+    try:
+        res, clean = _run_case(case, api)
+    except BaseException:
+        api._c19_state = None
+        raise
+    if not clean:
+        api._c19_state = None          # something left the script: the next case gets a new context
+    return res
+
+
+def _run_case(case, api):
+    st = _context(case, api)
+    ctx, got = st["ctx"], st["got"]
     if case["kind"] == "parse":
         ctx.set("__t", wire.from_units(case["t"]))
         src = _PARSE_JS
@@ -214,8 +255,13 @@ def c19_driver(case, api):
         ctx.set("__v", root)
         for i, key in enumerate(b.keys):
             ctx.set("__k%d" % i, key)
-        src = _PRELUDE + patch_js + _STR_TAIL
+        src = "__out('start');" + patch_js + _STR_TAIL
     ev = api.eval_outcome(ctx, src, wall=case.get("wall", 240.0), cap=case.get("cap", 2_000_000))
+    clean = ev["o"] == "value"
+    return _result(case, ev, got), clean
+
+
+def _result(case, ev, got):
     if "start" not in got:
         raise RuntimeError("driver script did not run: %r" % (ev,))
     res = {"id": case["id"], "rt": {"o": "none"}, "protos": True}
